@@ -4,7 +4,7 @@ import ast
 from .repo import AnalysisError
 from .interp import (State, Frame, Outcome, NORMAL, MAX_PATHS,
                      MAX_LOOP_ROUNDS)
-from .terms import NONE, TRUE, FALSE, const, is_const, mentions
+from .terms import NONE, TRUE, FALSE, const, is_const, mentions, plain
 
 
 def short_name(name):
@@ -256,6 +256,7 @@ class ExecMixin(object):
             state.envs[frame.fid][target.value.id] = ("dictlit", items)
             return [(state, NORMAL)]
         # registry / heap dict store
+        key = plain(key)
         if value[0] == "obj":
             state.regs[(base, key)] = value
         self.ev(state, "reg_set", frame, stmt, reg=base, key=key, value=value)
